@@ -1720,6 +1720,11 @@ func (env *LEnv) call(ctx context.Context, fun *LVal, args *LVal) *LVal {
 		if val.Type == LMarkTerminal {
 			env.Runtime.Stack.Top().Terminal = true
 			termEnv := val.Native.(*LEnv)
+			// Bridge ctx for the duration of the terminal evaluation only:
+			// termEnv outlives this call (it is the root env for a top-level
+			// form), and a ctx left behind would be inherited -- possibly
+			// already cancelled -- by every later non-Context entry point.
+			defer func(prev context.Context) { termEnv.evalCtx = prev }(termEnv.evalCtx)
 			termEnv.evalCtx = ctx
 			return termEnv.eval(ctx, val.Cells[0])
 		}
